@@ -1160,6 +1160,10 @@ class Structure(UniqueMixin, metaclass=StructMeta):
             if key in self.get_all_fields_by_name() and getattr(
                     self, ENABLE_UNDEFINED, False
             ):
+                if key in self.__dict__ and getattr(
+                        self.get_all_fields_by_name().get(key), IS_IMMUTABLE, False
+                ):
+                    raise ValueError(f"{key}: Field is immutable")
                 getattr(self, "_none_fields").add(key)
             return
 
